@@ -189,33 +189,71 @@ theorem lookupItem_mem {items : List (Nat × Item)} {n : Nat} {it : Item}
     · rename_i hm; cases h; subst hm; simp
     · exact List.mem_cons_of_mem _ (ih h)
 
-/-- Every reference of an item definition goes to a definition of smaller rank. -/
-def rankedItems (items : List (Nat × Item)) (rank : Nat → Nat) : Bool :=
-  items.all (fun e => (refs e.2).all (fun m => decide (rank m < rank e.1)))
+mutual
+theorem refsOkWith_eq (k : Nat → Bool) : ∀ it : Item, refsOkWith k it = (refs it).all k
+  | .simple => by simp [refsOkWith, refs]
+  | .collSimple => by simp [refsOkWith, refs]
+  | .ref n => by simp [refsOkWith, refs]
+  | .collRef n => by simp [refsOkWith, refs]
+  | .comp cs => by simp only [refsOkWith, refs]; exact refsOkAll_eq k cs
+  | .collComp cs => by simp only [refsOkWith, refs]; exact refsOkAll_eq k cs
+theorem refsOkAll_eq (k : Nat → Bool) : ∀ cs : List Item, refsOkAll k cs = (refsAll cs).all k
+  | [] => by simp [refsOkAll, refsAll]
+  | c :: cs => by simp [refsOkAll, refsAll, refsOkWith_eq k c, refsOkAll_eq k cs]
+end
 
-theorem walkName_terminates (items : List (Nat × Item)) (rank : Nat → Nat)
-    (hr : rankedItems items rank = true) :
-    ∀ (fuel n : Nat), rank n < fuel → walkName items fuel n ≠ .diverge := by
-  intro fuel
-  induction fuel with
-  | zero => intro n h; omega
-  | succ f ih =>
-    intro n h
-    simp only [walkName]
+/-- A chain check that passes bounds the depth of the type / context evaluation. -/
+theorem walkName_of_chain (items : List (Nat × Item)) :
+    ∀ (b n : Nat), itemChain items b n = true → ∀ f, b ≤ f → walkName items f n ≠ .diverge := by
+  intro b
+  induction b with
+  | zero =>
+    intro n h f _
+    unfold itemChain at h
+    unfold walkName
+    cases hl : lookupItem items n with
+    | none => simp
+    | some it => rw [hl] at h; simp at h
+  | succ b ih =>
+    intro n h f hf
+    unfold itemChain at h
+    unfold walkName
     cases hl : lookupItem items n with
     | none => simp
     | some it =>
+      rw [hl] at h
+      simp only at h
+      obtain ⟨f', rfl⟩ : ∃ f', f = f' + 1 := ⟨f - 1, by omega⟩
       simp only
       apply walkWith_ne_diverge
       intro m hm
-      have hmem := lookupItem_mem hl
-      simp only [rankedItems, List.all_eq_true, decide_eq_true_eq] at hr
-      have := hr (n, it) hmem m hm
-      exact ih m (by simp only at this; omega)
+      rw [refsOkWith_eq, List.all_eq_true] at h
+      exact ih m (h m hm) f' (by omega)
 
-theorem walkRef_terminates (items : List (Nat × Item)) (rank : Nat → Nat)
-    (hr : rankedItems items rank = true) (fuel : Nat) (hf : ∀ n, rank n < fuel) (t : Option TypeRef) :
-    walkRef items fuel t ≠ .diverge := by
+/-- After the check of `ItemDefinitionEvaluator::build`, evaluating the type of any name ends
+within `items.length` steps. -/
+theorem walkName_of_check (items : List (Nat × Item)) (hc : itemCheck items = true) (n f : Nat)
+    (hf : items.length ≤ f) : walkName items f n ≠ .diverge := by
+  unfold walkName
+  cases hl : lookupItem items n with
+  | none => simp
+  | some it =>
+    have hmem := lookupItem_mem hl
+    have hpos : items.length ≥ 1 := by
+      cases items with
+      | nil => cases hmem
+      | cons _ _ => simp
+    obtain ⟨f', rfl⟩ : ∃ f', f = f' + 1 := ⟨f - 1, by omega⟩
+    simp only
+    apply walkWith_ne_diverge
+    intro m hm
+    simp only [itemCheck, List.all_eq_true] at hc
+    have := hc (n, it) hmem
+    rw [refsOkWith_eq, List.all_eq_true] at this
+    exact walkName_of_chain items _ m (this m hm) f' (by omega)
+
+theorem walkRef_of_check (items : List (Nat × Item)) (hc : itemCheck items = true) (f : Nat)
+    (hf : items.length ≤ f) (t : Option TypeRef) : walkRef items f t ≠ .diverge := by
   cases t with
   | none => simp [walkRef]
   | some t =>
@@ -223,30 +261,45 @@ theorem walkRef_terminates (items : List (Nat × Item)) (rank : Nat → Nat)
     | builtin => simp [walkRef]
     | named n =>
       simp only [walkRef]
-      have := walkName_terminates items rank hr fuel n (hf n)
-      cases hw : walkName items fuel n with
+      have := walkName_of_check items hc n f hf
+      cases hw : walkName items f n with
       | diverge => exact absurd hw this
       | found => simp
       | missing => simp
 
-theorem walkParam_terminates (items : List (Nat × Item)) (rank : Nat → Nat)
-    (hr : rankedItems items rank = true) (fuel : Nat) (hf : ∀ n, rank n < fuel) (t : TypeRef) :
-    walkParam items fuel t ≠ .diverge := by
+theorem walkParam_of_check (items : List (Nat × Item)) (hc : itemCheck items = true) (f : Nat)
+    (hf : items.length ≤ f) (t : TypeRef) : walkParam items f t ≠ .diverge := by
   cases t with
   | builtin => simp [walkParam]
   | named n =>
     simp only [walkParam]
-    have := walkName_terminates items rank hr fuel n (hf n)
-    cases hw : walkName items fuel n with
+    have := walkName_of_check items hc n f hf
+    cases hw : walkName items f n with
     | diverge => exact absurd hw this
     | found => simp
     | missing => simp
 
-/-! ## knowledge requirements -/
+/-- A set of item definition names closed under "refers to a member": a reference cycle. -/
+def ItemCycle (items : List (Nat × Item)) (C : Nat → Prop) : Prop :=
+  ∀ n, C n → ∃ it, lookupItem items n = some it ∧ ∃ m ∈ refs it, C m
 
-/-- Every knowledge requirement of a knowledge model goes to an element of smaller rank. -/
-def rankedKnowledge (d : Defs) (rank : Nat → Nat) : Bool :=
-  d.bkms.all (fun b => b.reqs.all (fun r => decide (rank r < rank b.id)))
+theorem itemChain_cycle (items : List (Nat × Item)) (C : Nat → Prop) (hC : ItemCycle items C) :
+    ∀ b n, C n → itemChain items b n = false := by
+  intro b
+  induction b with
+  | zero =>
+    intro n hn
+    obtain ⟨it, hl, _⟩ := hC n hn
+    unfold itemChain; simp [hl]
+  | succ b ih =>
+    intro n hn
+    obtain ⟨it, hl, m, hm, hcm⟩ := hC n hn
+    unfold itemChain
+    simp only [hl, refsOkWith_eq]
+    rw [List.all_eq_false]
+    exact ⟨m, hm, by simp [ih m hcm]⟩
+
+/-! ## requirements -/
 
 theorem findBkm_some {d : Defs} {id : Nat} {b : Bkm} (h : findBkm d id = some b) :
     b ∈ d.bkms ∧ b.id = id := by
@@ -269,103 +322,206 @@ theorem findService_some {d : Defs} {id : Nat} {x : Service} (h : findService d 
   have h2 := List.find?_some h
   exact ⟨h1, by simpa using h2⟩
 
-theorem bringOne_terminates (d : Defs) (rank : Nat → Nat) (hr : rankedKnowledge d rank = true) :
-    ∀ (fuel id : Nat), rank id < fuel → bringOne d fuel id ≠ .diverge := by
-  intro fuel
-  induction fuel with
-  | zero => intro id h; omega
-  | succ f ih =>
-    intro id h
-    simp only [bringOne]
+/-- The requirements of a decision are in the map under its identifier. -/
+theorem reqsOf_decision {d : Defs} {id : Nat} {x : Decision} (h : findDecision d id = some x) :
+    ∃ rs, reqsOf d id = some rs ∧ ∀ r ∈ x.required, r ∈ rs := by
+  obtain ⟨hm, hid⟩ := findDecision_some h
+  have hin : id ∈ allIds d := by
+    simp only [allIds, List.mem_append, List.mem_map]
+    exact Or.inl (Or.inl ⟨x, hm, hid⟩)
+  refine ⟨reqList d id, by simp only [reqsOf, hin, if_true], ?_⟩
+  intro r hr
+  simp only [reqList, List.mem_append, List.mem_flatMap, List.mem_filter, decide_eq_true_eq]
+  exact Or.inl (Or.inl ⟨x, ⟨hm, hid⟩, hr⟩)
+
+theorem reqsOf_bkm {d : Defs} {id : Nat} {x : Bkm} (h : findBkm d id = some x) :
+    ∃ rs, reqsOf d id = some rs ∧ ∀ r ∈ x.reqs, r ∈ rs := by
+  obtain ⟨hm, hid⟩ := findBkm_some h
+  have hin : id ∈ allIds d := by
+    simp only [allIds, List.mem_append, List.mem_map]
+    exact Or.inl (Or.inr ⟨x, hm, hid⟩)
+  refine ⟨reqList d id, by simp only [reqsOf, hin, if_true], ?_⟩
+  intro r hr
+  simp only [reqList, List.mem_append, List.mem_flatMap, List.mem_filter, decide_eq_true_eq]
+  exact Or.inl (Or.inr ⟨x, ⟨hm, hid⟩, hr⟩)
+
+theorem reqsOf_service {d : Defs} {id : Nat} {x : Service} (h : findService d id = some x) :
+    ∃ rs, reqsOf d id = some rs ∧ ∀ r ∈ x.required, r ∈ rs := by
+  obtain ⟨hm, hid⟩ := findService_some h
+  have hin : id ∈ allIds d := by
+    simp only [allIds, List.mem_append, List.mem_map]
+    exact Or.inr ⟨x, hm, hid⟩
+  refine ⟨reqList d id, by simp only [reqsOf, hin, if_true], ?_⟩
+  intro r hr
+  simp only [reqList, List.mem_append, List.mem_flatMap, List.mem_filter, decide_eq_true_eq]
+  exact Or.inr ⟨x, ⟨hm, hid⟩, hr⟩
+
+/-- What a passing chain check gives for a keyed identifier: budget left, and every required
+identifier passes with one less. -/
+theorem reqChain_step {d : Defs} {b id : Nat} {rs : List Nat} (hr : reqsOf d id = some rs)
+    (h : reqChain d b id = true) : ∃ b', b = b' + 1 ∧ ∀ r ∈ rs, reqChain d b' r = true := by
+  unfold reqChain at h
+  rw [hr] at h
+  cases b with
+  | zero => simp at h
+  | succ b' =>
+    simp only [List.all_eq_true] at h
+    exact ⟨b', rfl, h⟩
+
+/-- A chain check that passes bounds the depth of `bring_knowledge_requirements_into_context`. -/
+theorem bringOne_of_chain (d : Defs) :
+    ∀ (b id : Nat), reqChain d b id = true → ∀ f, b ≤ f → bringOne d f id ≠ .diverge := by
+  intro b
+  induction b with
+  | zero =>
+    intro id h f _
+    unfold bringOne
     cases hb : findBkm d id with
-    | none =>
-      simp only
-      split <;> simp
-    | some b =>
+    | none => simp only; split <;> simp
+    | some x =>
+      obtain ⟨rs, hrs, _⟩ := reqsOf_bkm hb
+      obtain ⟨b', hb', _⟩ := reqChain_step hrs h
+      omega
+  | succ b ih =>
+    intro id h f hf
+    unfold bringOne
+    cases hb : findBkm d id with
+    | none => simp only; split <;> simp
+    | some x =>
+      obtain ⟨rs, hrs, hsub⟩ := reqsOf_bkm hb
+      obtain ⟨b', hb', hall⟩ := reqChain_step hrs h
+      obtain ⟨f', rfl⟩ : ∃ f', f = f' + 1 := ⟨f - 1, by omega⟩
       simp only
       apply allM_ne_diverge
-      intro r hrm
-      obtain ⟨hmem, hid⟩ := findBkm_some hb
-      subst hid
-      simp only [rankedKnowledge, List.all_eq_true, decide_eq_true_eq] at hr
-      have := hr b hmem r hrm
-      exact ih r (by omega)
+      intro r hr
+      have : b' = b := by omega
+      subst this
+      exact ih r (hall r (hsub r hr)) f' (by omega)
 
-theorem bringKR_terminates (d : Defs) (rank : Nat → Nat) (hr : rankedKnowledge d rank = true)
-    (fuel : Nat) (hf : ∀ n, rank n < fuel) (reqs : List Nat) : bringKR d fuel reqs ≠ .diverge := by
-  apply allM_ne_diverge
-  intro r _
-  exact bringOne_terminates d rank hr fuel r (hf r)
-
-/-! ## evaluation -/
-
-/-- Every requirement followed at evaluation time goes to an element of smaller rank. -/
-def rankedEval (d : Defs) (rank : Nat → Nat) : Bool :=
-  d.decisions.all (fun x =>
-    x.knowledge.all (fun r => decide (rank r < rank x.id)) &&
-    (x.info.filterMap (·.reqDecision)).all (fun r => decide (rank r < rank x.id))) &&
-  d.bkms.all (fun b => b.reqs.all (fun r => decide (rank r < rank b.id))) &&
-  d.services.all (fun s =>
-    s.inputDecisions.all (fun r => decide (rank r < rank s.id)) &&
-    s.encapsulated.all (fun r => decide (rank r < rank s.id)) &&
-    s.outputs.all (fun r => decide (rank r < rank s.id)))
-
-theorem eval_terminates_aux (d : Defs) (rank : Nat → Nat) (hr : rankedEval d rank = true) :
-    ∀ (fuel id : Nat), rank id < fuel →
-      evalDecision d fuel id ≠ .diverge ∧ evalBkm d fuel id ≠ .diverge ∧ evalService d fuel id ≠ .diverge := by
-  simp only [rankedEval, Bool.and_eq_true, List.all_eq_true, decide_eq_true_eq] at hr
-  obtain ⟨⟨hd, hb⟩, hs⟩ := hr
-  intro fuel
-  induction fuel with
-  | zero => intro id h; omega
-  | succ f ih =>
-    intro id h
+/-- A chain check that passes bounds the depth of the evaluation closures. -/
+theorem eval_of_chain (d : Defs) :
+    ∀ (b id : Nat), reqChain d b id = true → ∀ f, b ≤ f →
+      evalDecision d f id ≠ .diverge ∧ evalBkm d f id ≠ .diverge ∧ evalService d f id ≠ .diverge := by
+  intro b
+  induction b with
+  | zero =>
+    intro id h f _
     refine ⟨?_, ?_, ?_⟩
-    · simp only [evalDecision]
+    · unfold evalDecision
       cases hx : findDecision d id with
       | none => simp
       | some x =>
-        simp only
-        obtain ⟨hmem, hid⟩ := findDecision_some hx
-        subst hid
-        have := hd x hmem
-        apply seq_ne_diverge
-        · apply allM_ne_diverge
-          intro r hrm
-          exact (ih r (by have := this.1 r hrm; omega)).2.1
-        · apply allM_ne_diverge
-          intro r hrm
-          exact (ih r (by have := this.2 r hrm; omega)).1
-    · simp only [evalBkm]
+        obtain ⟨rs, hrs, _⟩ := reqsOf_decision hx
+        obtain ⟨b', hb', _⟩ := reqChain_step hrs h
+        omega
+    · unfold evalBkm
       cases hx : findBkm d id with
       | none => simp
-      | some b =>
-        simp only
-        obtain ⟨hmem, hid⟩ := findBkm_some hx
-        subst hid
-        have := hb b hmem
-        apply allM_ne_diverge
-        intro r hrm
-        have hlt : rank r < f := by have := this r hrm; omega
-        exact seq_ne_diverge _ _ (ih r hlt).2.1 (ih r hlt).2.2
-    · simp only [evalService]
+      | some x =>
+        obtain ⟨rs, hrs, _⟩ := reqsOf_bkm hx
+        obtain ⟨b', hb', _⟩ := reqChain_step hrs h
+        omega
+    · unfold evalService
       cases hx : findService d id with
       | none => simp
-      | some s =>
+      | some x =>
+        obtain ⟨rs, hrs, _⟩ := reqsOf_service hx
+        obtain ⟨b', hb', _⟩ := reqChain_step hrs h
+        omega
+  | succ b ih =>
+    intro id h f hf
+    obtain ⟨f', rfl⟩ : ∃ f', f = f' + 1 := ⟨f - 1, by omega⟩
+    refine ⟨?_, ?_, ?_⟩
+    · unfold evalDecision
+      cases hx : findDecision d id with
+      | none => simp
+      | some x =>
+        obtain ⟨rs, hrs, hsub⟩ := reqsOf_decision hx
+        obtain ⟨b', hb', hall⟩ := reqChain_step hrs h
+        have : b' = b := by omega
+        subst this
         simp only
-        obtain ⟨hmem, hid⟩ := findService_some hx
-        subst hid
-        have := hs s hmem
         apply seq_ne_diverge
         · apply allM_ne_diverge
-          intro r hrm
-          exact (ih r (by have := this.1.1 r hrm; omega)).1
+          intro r hr
+          exact (ih r (hall r (hsub r (by simp [Decision.required, hr]))) f' (by omega)).2.1
+        · apply allM_ne_diverge
+          intro r hr
+          exact (ih r (hall r (hsub r (by simp only [Decision.required, List.mem_append]; exact Or.inl hr))) f' (by omega)).1
+    · unfold evalBkm
+      cases hx : findBkm d id with
+      | none => simp
+      | some x =>
+        obtain ⟨rs, hrs, hsub⟩ := reqsOf_bkm hx
+        obtain ⟨b', hb', hall⟩ := reqChain_step hrs h
+        have : b' = b := by omega
+        subst this
+        simp only
+        apply allM_ne_diverge
+        intro r hr
+        have := ih r (hall r (hsub r hr)) f' (by omega)
+        exact seq_ne_diverge _ _ this.2.1 this.2.2
+    · unfold evalService
+      cases hx : findService d id with
+      | none => simp
+      | some x =>
+        obtain ⟨rs, hrs, hsub⟩ := reqsOf_service hx
+        obtain ⟨b', hb', hall⟩ := reqChain_step hrs h
+        have : b' = b := by omega
+        subst this
+        simp only
+        apply seq_ne_diverge
+        · apply allM_ne_diverge
+          intro r hr
+          exact (ih r (hall r (hsub r (by simp [Service.required, hr]))) f' (by omega)).1
         · apply seq_ne_diverge
           · apply allM_ne_diverge
-            intro r hrm
-            exact (ih r (by have := this.1.2 r hrm; omega)).1
+            intro r hr
+            exact (ih r (hall r (hsub r (by simp [Service.required, hr]))) f' (by omega)).1
           · apply allM_ne_diverge
-            intro r hrm
-            exact (ih r (by have := this.2 r hrm; omega)).1
+            intro r hr
+            exact (ih r (hall r (hsub r (by simp [Service.required, hr]))) f' (by omega)).1
+
+/-- After `check_requirements`, every identifier passes the chain check with the full budget
+(identifiers without an entry pass trivially). -/
+theorem reqChain_of_check (d : Defs) (hc : reqCheck d = true) (id : Nat) :
+    reqChain d (nodeCount d) id = true := by
+  by_cases hin : id ∈ allIds d
+  · simp only [reqCheck, List.all_eq_true] at hc
+    exact hc id hin
+  · unfold reqChain
+    simp [reqsOf, hin]
+
+/-- A set of identifiers closed under "requires a member": a requirement cycle. -/
+def ReqCycle (d : Defs) (C : Nat → Prop) : Prop :=
+  ∀ id, C id → ∃ rs, reqsOf d id = some rs ∧ ∃ r ∈ rs, C r
+
+theorem reqChain_cycle (d : Defs) (C : Nat → Prop) (hC : ReqCycle d C) :
+    ∀ b id, C id → reqChain d b id = false := by
+  intro b
+  induction b with
+  | zero =>
+    intro id hid
+    obtain ⟨rs, hrs, _⟩ := hC id hid
+    unfold reqChain; simp [hrs]
+  | succ b ih =>
+    intro id hid
+    obtain ⟨rs, hrs, r, hr, hcr⟩ := hC id hid
+    unfold reqChain
+    simp only [hrs]
+    rw [List.all_eq_false]
+    exact ⟨r, hr, by simp [ih r hcr]⟩
+
+theorem reqCheck_cycle (d : Defs) (C : Nat → Prop) (hC : ReqCycle d C) (id : Nat) (hid : C id) :
+    reqCheck d = false := by
+  obtain ⟨rs, hrs, _⟩ := hC id hid
+  have hin : id ∈ allIds d := by
+    unfold reqsOf at hrs
+    by_cases h : id ∈ allIds d
+    · exact h
+    · simp [h] at hrs
+  simp only [reqCheck]
+  rw [List.all_eq_false]
+  exact ⟨id, hin, by simp [reqChain_cycle d C hC _ id hid]⟩
 
 end Dmn.MB
